@@ -307,6 +307,7 @@ pub fn run_case(c: &Sexp) -> Sexp {
             });
             Sexp::tag("obs", vec![schema_to_sexp(&schema), dec, valid, reenc, redec, deser])
         }
+        "sinkrun" => crate::sinkrun::sinkrun(a),
         "sizes" => Sexp::tag(
             "sizes",
             vec![
